@@ -80,7 +80,7 @@ prop('C14', level='other', modules=['Polyseed.Props.C14'], suites=[],
      text='Theorems strSplit_bounds (never more than 16 tokens stored, never more than 17 returned), lazyNfkd_length, load/create/decode/decodeExplicit status-range theorems (only documented statuses, every input), failed_call_no_seed (any call, input, oracle and allocation outcome), termination of every model function (accepted by Lean as total definitions). Runtime: the malformed stream (raw bytes, invalid UTF-8, strings around POLYSEED_STR_SIZE and up to 40000 bytes, separator floods, mutated phrases, random/mutated 32-byte buffers) through both decoders, crypt and load with every input flush against a PROT_NONE page, output buffers likewise, ASan+UBSan, inputs compared before/after.', note=PROOF_NOTE, technique='Lean 4 theorems on the model (totality, status ranges, capacity bounds) + sanitizer/guard-page observation', assumptions=[],
      explanation='model: every function is total by construction (structural or fuel-bounded recursion), returns only documented statuses, keeps within its buffer capacities and hands out no seed on failure (theorems, all inputs); code: every input string and buffer is placed flush against a PROT_NONE page, output buffers likewise, the library runs under ASan+UBSan, inputs are compared before/after, the harness allocator checks the ledger; what is NOT shown: the memory accesses of the compiled code on inputs outside the explored ones')
 prop('C20', level='other', modules=['Polyseed.Props.C20'], suites=[], extra='extra_threads',
-     text='Theorems globals_unchanged (every call other than inject/enable_features leaves the dependency table and the feature mask alone), other_thread_frame = C13.frame (a call never changes a seed other than its argument or the fresh block it obtains), on top of C15 (block identities never collide). Runtime: writable-symbol inventory of the objects built from the tree (complete: exactly the dependency table, the feature mask, the GF table and the registry array) and N threads x iterations under ThreadSanitizer with per-thread digests of every observable result compared with the serial run, yields injected through the dependency stubs.', note=PROOF_NOTE, technique='Lean 4 interleaving theorem on the model + ThreadSanitizer + writable-symbol inventory', assumptions=[],
+     text='Theorems thread_serial (in EVERY interleaving of calls of any number of threads, each thread observes exactly the outputs a serial execution of its own calls gives, provided the other threads make no inject/enable_features calls and neither name nor are handed one of its blocks; induction over the interleaving), step_local (outputs, dependency calls and consumed oracle answers depend on the state only through the dependency table, the feature mask and the seeds the call is given), step_agree (pointwise congruence), step_untouched, step_globals, globals_unchanged (every call other than inject/enable_features leaves the dependency table and the feature mask alone), other_thread_frame = C13.frame (a call never changes a seed other than its argument or the fresh block it obtains), on top of C15 (block identities never collide). Runtime: writable-symbol inventory of the objects built from the tree (complete: exactly the dependency table, the feature mask, the GF table and the registry array) and N threads x iterations under ThreadSanitizer with per-thread digests of every observable result compared with the serial run, yields injected through the dependency stubs.', note=PROOF_NOTE, technique='Lean 4 interleaving theorem on the model + ThreadSanitizer + writable-symbol inventory', assumptions=[],
      explanation='model: calls of different threads on disjoint seeds commute (each reads only the injected-dependency table, the feature mask and its own seeds); code: the writable-symbol inventory of the objects built from the tree is exactly {polyseed_deps, reserved_features, polyseed_mul2_table} (complete), and N threads run under ThreadSanitizer with per-thread results compared with the serial run (schedules sampled)')
 prop('C16', level='other', modules=['Polyseed.Props.C16'], suites=[],
      api=dict(cone={'*': 'ev:zero,free'}, weights=dict(roundtrip=3, crypt=3, faults=2, unsupported=2, storage=2, badtokens=1), sessions=3), extra='extra_stack',
@@ -119,6 +119,7 @@ prop('C09', level='proof', modules=['Polyseed.Props.C09'], suites=['detect'],
      technique='Lean 4 proof (generic case analysis of the detection loop and tokeniser inversion) + correspondence on phrase_decode and API decodes',
      assumptions=[])
 prop('C06', level='proof', modules=['Polyseed.Props.C06'], suites=['store'],
+     api=dict(cone={'load': 'full', 'store': 'full'}, weights=dict(storage=8, unsupported=2, crypt=1, roundtrip=1), sessions=4),
      text='Theorems store_bytes, load_store, load_ok_iff (for EVERY list of 32 bytes: accepted iff it is byte-for-byte the image of a canonical supported seed), store_of_loaded, load_status (precedence memory > format > checksum > unsupported), dataLoad_format_iff. polyseed_data_store/load are compared with the model on valid images, field-wise mutations (exhaustive in the thorough tier) and random buffers.',
      note=PROOF_NOTE + 'Modelled, not verified: storage.c and polyseed_load (hand transcription).',
      technique='Lean 4 proof (iff-characterisation over all 32-byte lists) + correspondence on store/load',
@@ -238,12 +239,19 @@ def run_suite(ctx, pid, S, viol, stats):
                     viol.append(Violation('oracle', key, msg, script=script, suite=S.name, variant=variant, found_input=True))
 
 
+# C13 says EVERY output equals the abstract model's: an output oracle of a more specific property is a C13 witness too
+ALSO = {'C13': ('C01', 'C03', 'C04', 'C06', 'C10', 'C11', 'C12')}
+
+
 def run_api(ctx, pid, viol, stats, weights=None, sessions=None, nops=None, variants=('asan',), cone=None, tag='api'):
     """S-api: feedback-driven histories on the real code (online property oracles) + model diff.
     `cone`: op names whose disagreement with the model concerns this property (None = all)."""
     weights = weights or apigen.DEFAULT_WEIGHTS
-    sessions = sessions or (40 if ctx.thorough else 6)
-    nops = nops or (600 if ctx.thorough else 350)
+    if ctx.thorough:
+        sessions, nops = max(120, (sessions or 6) * 20), 700
+        variants = tuple(variants) + tuple(v for v in ('clang',) if v not in variants)
+    sessions = sessions or 6
+    nops = nops or 350
     st = stats.setdefault(tag, dict(evaluations=0, distinct=set(), samples=[], variants=[], wall=0.0,
                                     note='feedback-driven API histories (%d sessions x ~%d ops): outputs of earlier calls are fed back exact and mutated; online oracles judge the real code by the property statement; the transcript is replayed through the Lean model' % (sessions, nops),
                                     exhaustive=False, mismatches=0, hist={}))
@@ -277,7 +285,7 @@ def run_api(ctx, pid, viol, stats, weights=None, sessions=None, nops=None, varia
                                       'the real code crashed / was stopped by a sanitizer in an API history (%s): %s' % (variant, sess.crashed[:1500]),
                                       script=sess.script[-700:], suite=tag, variant=variant, found_input=True))
             for (p, key, msg, script) in g.viol:
-                if p == pid:
+                if p == pid or p in ALSO.get(pid, ()):
                     viol.append(Violation('oracle', key, msg, script=script[-700:], suite=tag, variant=variant, found_input=True))
             for (i, cb, mb) in session.diff_with_model(sess)[:5]:
                 opname = cb[0].split()[1] if len(cb[0].split()) > 1 else '?'
@@ -837,6 +845,13 @@ def check(ctx, pid):
             if bad:
                 viol.append(Violation('audit', 'axioms', 'theorems with missing or disallowed axioms: %s' % ', '.join('%s:%s' % (k, ax[k]) for k in bad)[:2000]))
             proof['discharged'] = len(names) - len(bad) if not hits else 0
+            if ctx.thorough:
+                closure = core.import_closure(mods)
+                failed, n = core.leancheck(closure)
+                proof['leanchecker'] = dict(modules=n, failed=[m for m, _ in failed])
+                if failed:
+                    proof['discharged'] = 0
+                    viol.append(Violation('audit', 'leanchecker', 'leanchecker rejects compiled modules: %s' % '; '.join('%s: %s' % (m, t[-200:]) for m, t in failed)[:2000]))
         # ---- correspondence + oracles
         if os.path.exists(core.driver_path()) and ctx.langs is not None:
             for sname in P['suites']:
@@ -890,7 +905,7 @@ def report(ctx, pid, P, viol, stats, proof, t0):
         obligations=proof['obligations'], discharged=proof['discharged'],
         checker_cmd='cd /verif/lean && lake build %s   # then #print axioms on each theorem' % ' '.join(P['modules']),
         trusted_base=TRUSTED_COMMON + P.get('trusted', []),
-        theorems=proof['theorems'], axioms=proof['axioms'], failed_obligations=proof['failed'],
+        theorems=proof['theorems'], axioms=proof['axioms'], failed_obligations=proof['failed'], leanchecker=proof.get('leanchecker', 'thorough tier only'),
         evaluations=evaluations, distinct_nontrivial=distinct,
         rule='correspondence: every op line is run on the real code and on the model and compared; distinct = distinct op lines (inputs) across suites; non-trivial = not skipped by the harness',
         samples=samples or [['(no correspondence run)']],
